@@ -201,6 +201,14 @@ def extra_direct(ck, S, ET, rng):
              S.func('foo_x_td_cb', S.VOID, [S.param('cb', S.td('FooCb2')), S.param('data', S.td('gpointer'))], line=20),
              S.func('foo_x_td_both', S.VOID, [S.param('n', S.td('gint')), S.param('cb', S.td('FooCb2')), S.param('cb_data', S.td('gpointer')),
                                               S.param('destroy', S.td('FooDestroy'))], line=21)]
+    # strings returned through typedefs: "typedef const char *FooLabel; typedef FooLabel FooTitle; typedef char *FooName;"
+    CONSTQ = S.TYPE_QUALIFIER_CONST
+    syms += [S.FS(S.CSYMBOL_TYPE_TYPEDEF, 'FooLabel', base_type=S.ptr(S.FT(S.CTYPE_BASIC_TYPE, 'char', type_qualifier=CONSTQ)), line=22),
+             S.FS(S.CSYMBOL_TYPE_TYPEDEF, 'FooTitle', base_type=S.td('FooLabel'), line=23),
+             S.FS(S.CSYMBOL_TYPE_TYPEDEF, 'FooName', base_type=S.ptr(S.basic('char')), line=24),
+             S.FS(S.CSYMBOL_TYPE_TYPEDEF, 'FooNick', base_type=S.td('FooName'), line=25),
+             S.func('foo_x_get_label', S.td('FooLabel'), [], line=26), S.func('foo_x_get_title', S.td('FooTitle'), [], line=27),
+             S.func('foo_x_dup_name', S.td('FooName'), [], line=28), S.func('foo_x_dup_nick', S.td('FooNick'), [], line=29)]
     # returned pointers to const containers (libnm: const GByteArray *nm_setting_wireless_get_ssid (void))
     CONT = ['GByteArray', 'GList', 'GSList', 'GPtrArray', 'GArray', 'GHashTable']
     for j, cn_ in enumerate(CONT):
@@ -241,6 +249,16 @@ def extra_direct(ck, S, ET, rng):
         if v is None or v.get('transfer-ownership') != want:
             ck.failing_input('a returned %s string does not default to transfer %s' % ('const' if want == 'none' else 'non-const', want),
                              dict(case, function=name), detail=None if v is None else v.attrib)
+
+    for name, want, decl in (('foo_x_get_label', 'none', 'typedef const char *FooLabel; FooLabel foo_x_get_label (void);'),
+                             ('foo_x_get_title', 'none', 'typedef const char *FooLabel; typedef FooLabel FooTitle; FooTitle foo_x_get_title (void);'),
+                             ('foo_x_dup_name', 'full', 'typedef char *FooName; FooName foo_x_dup_name (void);'),
+                             ('foo_x_dup_nick', 'full', 'typedef char *FooName; typedef FooName FooNick; FooNick foo_x_dup_nick (void);')):
+        v = rv(name)
+        if v is None or v.get('transfer-ownership') != want:
+            ck.failing_input('a string returned through a typedef of a %s string does not default to transfer %s'
+                             % ('const' if want == 'none' else 'non-const', want), dict(declarations=decl, function=name),
+                             detail=None if v is None else v.attrib)
 
     for cn_ in CONT:
         v = rv('foo_x_const_%s' % cn_.lower())
